@@ -16,7 +16,7 @@ ASSUMPTIONS = [
 
 
 def c1(ctx):
-    timing.tag_order(ctx)
+    timing.tag_order(ctx, ['time_at'])
 
 
 def c2(ctx):
